@@ -109,6 +109,8 @@ def compound_case(case):
             out["dir"] = [(n, directory[n]["offset"], directory[n]["length"]) for n, _ in case["files"]]
             out["dirpos"] = dirpos
             out["dirlen_ok"] = dirlen == len(raw) - dirpos
+            out["dirlen"] = dirlen
+            out["raw"] = raw if len(raw) <= 6000 else None     # byte-level comparison for the smaller files
             reads = {}
             for mm in ((True, False) if case["target"] == "file" else (False,)):
                 cs = CompoundStorage(target.open_file("cmp"), use_mmap=mm, basepos=base)
@@ -197,6 +199,24 @@ def _compound(ctx):
             reqs.append("c20 misc compound-writer %d (%s)" % (c["buffersize"], " ".join(
                 "(c %s)" % op[1] if op[0] == "c" else "(w %s %s)" % (op[1], sexp(op[2])) for op in c["ops"])))
     outs = ctx.driver.ask(reqs)
+    # byte level: the whole finished file (header back-patch included) from the model, given the pickles of the
+    # real file as an opaque blob; and the reader's first steps on the real bytes
+    breqs, bmetas = [], []
+    for res in results:
+        c = res["case"]
+        if c["kind"] == "assemble" and "crash" not in res and res.get("raw") is not None:
+            raw, base = res["raw"], len(c["before"])
+            pickled = raw[res["dirpos"]:] if 0 <= res["dirpos"] <= len(raw) else b""
+            breqs.append("c20 misc compound-file %s (%s) %s" % (sexp(c["before"]), " ".join(
+                "(%s %s)" % (n, sexp(d)) for n, d in c["files"]), sexp(pickled)))
+            bmetas.append(("compound.CompoundStorage.assemble/write_dir(file bytes)", c, sexp(raw)))
+            breqs.append("c20 misc compound-opendir %s %d" % (sexp(raw), base))
+            bmetas.append(("compound.CompoundStorage.__init__(header)", c,
+                           "%d %d %s" % (res["dirpos"], res["dirlen"], sexp(pickled))))
+            ctx.stat("compound-file-bytes:before=%d" % len(c["before"]))
+    for (comp, c, impl), mo in zip(bmetas, ctx.driver.ask(breqs)):
+        if mo != impl:
+            ctx.divergence(comp, _cbrief(c), mo[:80], impl[:80])
     for res, mo in zip(results, outs):
         c = res["case"]
         if "crash" in res:
